@@ -7,10 +7,38 @@ from btclib.block import proof_of_work as pow_
 NS = "Pow"
 
 _T0 = datetime(2020, 1, 1, tzinfo=timezone.utc)
+_ZONES = ("Europe/Rome", "America/New_York", "Australia/Lord_Howe")
+
+# the statement that takes two aware datetimes to UTC before the subtraction: part of "the seconds that elapsed",
+# i.e. of the integer parameter `timespan`; pinned verbatim so that another normalisation breaks the translation
+_NORMALISE = ("if first_block_time.utcoffset() is not None and last_block_time.utcoffset() is not None:\n"
+              "    first_block_time = first_block_time.astimezone(timezone.utc)\n"
+              "    last_block_time = last_block_time.astimezone(timezone.utc)")
+
+
+def datetimes_for(timespan):
+    """two datetimes `timespan` elapsed seconds apart, in a representation chosen by the number itself: aware UTC,
+    aware in one DST zone (same tzinfo object), aware in two zones, fixed offsets, naive (wall-clock seconds).  The
+    start moves over four years so that the windows lie across daylight-saving changes."""
+    from zoneinfo import ZoneInfo
+    k = abs(timespan) % 7
+    first = _T0 + timedelta(seconds=(abs(timespan) * 7919) % (4 * 365 * 86400))
+    last = first + timedelta(seconds=timespan)
+    if k == 0:
+        return first, last
+    if k in (1, 2, 3):
+        z = ZoneInfo(_ZONES[k - 1])
+        return first.astimezone(z), last.astimezone(z)
+    if k == 4:
+        return first.astimezone(ZoneInfo(_ZONES[abs(timespan) % 3])), last.astimezone(ZoneInfo(_ZONES[(abs(timespan) + 1) % 3]))
+    if k == 5:
+        return first.astimezone(timezone(timedelta(minutes=630))), last.astimezone(timezone(timedelta(minutes=-210)))
+    return first.replace(tzinfo=None), last.replace(tzinfo=None)
 
 
 def _next_bits(bits, pow_limit_bits, timespan):
-    return pow_.next_bits(bits, _T0, _T0 + timedelta(seconds=timespan), pow_limit_bits=pow_limit_bits)
+    first, last = datetimes_for(timespan)
+    return pow_.next_bits(bits, first, last, pow_limit_bits=pow_limit_bits)
 
 
 def constants():
@@ -70,7 +98,7 @@ def functions():
         FuncSpec(pow_, "next_bits", "bytes",
                  params=[("bits", "bytes"), ("pow_limit_bits", "bytes")],
                  subst={"int((last_block_time - first_block_time).total_seconds())": ("timespan", "int")},
-                 skip_stmts=("for name, value in",),
+                 skip_stmts=("for name, value in", _NORMALISE),
                  call=_next_bits,
                  gen=lambda rng: (_bits4(rng),
                                   rng.choice([pow_.MAINNET_POW_LIMIT_BITS, pow_.REGTEST_POW_LIMIT_BITS, _bits4(rng)]),
